@@ -15,6 +15,8 @@ type Profile struct {
 	PFail      int // % of Finish actions that fail
 	PStop      int // % chance per step (once booted) to request Shutdown, at most once
 	PHold      int // % chance to skip finishing (keeps executions open longer)
+	PWait      int // % of failing Finish actions after which the queue's back-off delay is positive (FinishWait)
+	PShort     int // % of those whose delay is a short one, followed at once by Stop or its natural end
 	ManyOrders bool
 	V0         bool
 	AfterStop  int // extra steps generated after Stop
@@ -112,6 +114,25 @@ type genState struct {
 	stopped bool
 	after   int
 	obj     int
+	forced  *Action // the action that must follow a short back-off delay
+}
+
+// finishAction: the end of the execution open in queue q
+func finishAction(r *core.Rng, p Profile, g *genState, q int) Action {
+	ok := !r.Chance(p.PFail)
+	if !ok && p.PWait > 0 && r.Chance(p.PWait) {
+		a := Action{Kind: "FinishWait", Q: q}
+		if p.PShort > 0 && r.Chance(p.PShort) && !g.stopped {
+			a.Short = true
+			if p.PStop > 0 && r.Chance(60) {
+				g.forced = &Action{Kind: "Stop"}
+			} else {
+				g.forced = &Action{Kind: "Elapse", Q: q}
+			}
+		}
+		return a
+	}
+	return Action{Kind: "Finish", Q: q, Ok: ok}
 }
 
 // nextAction chooses an action that makes sense in the observable state.
@@ -120,10 +141,30 @@ func nextAction(r *core.Rng, p Profile, cfg []Hook, last *StepObs, g *genState) 
 		g.booted = true
 		return Action{Kind: "Boot"}, true
 	}
+	if g.forced != nil {
+		a := *g.forced
+		g.forced = nil
+		if a.Kind == "Stop" {
+			g.stopped = true
+		}
+		return a, true
+	}
 	if g.stopped {
 		g.after++
 		if g.after > p.AfterStop {
 			return Action{}, false
+		}
+	}
+	// queues waiting in a back-off delay: let some delays end
+	if last != nil {
+		var delayed []int
+		for _, q := range last.Queues {
+			if q.Delayed {
+				delayed = append(delayed, q.Name)
+			}
+		}
+		if len(delayed) > 0 && r.Chance(30) {
+			return Action{Kind: "Elapse", Q: delayed[r.Intn(len(delayed))]}, true
 		}
 	}
 	if !g.stopped && p.PStop > 0 && r.Chance(p.PStop) {
@@ -153,7 +194,7 @@ func nextAction(r *core.Rng, p Profile, cfg []Hook, last *StepObs, g *genState) 
 	}
 	if len(open) > 0 && r.Chance(wFinish) && !r.Chance(p.PHold) {
 		q := open[r.Intn(len(open))]
-		return Action{Kind: "Finish", Q: q, Ok: !r.Chance(p.PFail)}, true
+		return finishAction(r, p, g, q), true
 	}
 	// events: ticks any time; kube events only for unlocked monitors
 	if last != nil && len(last.Unlocked) > 0 && r.Chance(50) {
@@ -165,7 +206,7 @@ func nextAction(r *core.Rng, p Profile, cfg []Hook, last *StepObs, g *genState) 
 	}
 	if len(open) > 0 {
 		q := open[r.Intn(len(open))]
-		return Action{Kind: "Finish", Q: q, Ok: !r.Chance(p.PFail)}, true
+		return finishAction(r, p, g, q), true
 	}
 	return Action{Kind: "Tick", C: 1 + r.Intn(3)}, true
 }
@@ -173,16 +214,38 @@ func nextAction(r *core.Rng, p Profile, cfg []Hook, last *StepObs, g *genState) 
 // RunScenario executes a scenario on the real operator.
 func RunScenario(sc Scenario) Trace {
 	var tr Trace
+	for attempt := 0; attempt < 3; attempt++ {
+		var timing string
+		tr, timing = runScenarioOnce(sc)
+		if timing == "" {
+			return tr
+		}
+		if attempt == 2 && len(tr.Steps) > 0 {
+			tr.Steps[len(tr.Steps)-1].Note = "timing: " + timing
+		}
+	}
+	return tr
+}
+
+func runScenarioOnce(sc Scenario) (Trace, string) {
+	var tr Trace
 	s, err := NewSim(Input{Cfg: sc.Cfg})
 	if s != nil {
 		defer s.Close()
 	}
 	if err != nil {
 		tr.InitErr = err.Error()
-		return tr
+		return tr, ""
 	}
 	if len(sc.Acts) > 0 {
-		for _, a := range sc.Acts {
+		for i, a := range sc.Acts {
+			if a.Kind == "FinishWait" && a.Short {
+				// a short delay must be followed at once by Stop or its own end
+				okNext := i+1 < len(sc.Acts) && (sc.Acts[i+1].Kind == "Stop" || (sc.Acts[i+1].Kind == "Elapse" && sc.Acts[i+1].Q == a.Q))
+				if !okNext {
+					a.Short = false
+				}
+			}
 			tr.Acts = append(tr.Acts, a)
 			tr.Steps = append(tr.Steps, s.Do(a))
 		}
@@ -208,7 +271,7 @@ func RunScenario(sc Scenario) Trace {
 	s.boMu.Lock()
 	tr.Backoff = append(tr.Backoff, s.Backoffs...)
 	s.boMu.Unlock()
-	return tr
+	return tr, s.Timing
 }
 
 // ---- Coq rendering ----
@@ -290,7 +353,7 @@ func coqExec(e ExecObs) string {
 
 func coqStep(s StepObs) string {
 	qs := core.CoqList(s.Queues, func(q QObs) string {
-		return fmt.Sprintf("mkQO %d %s %s %s", q.Name, core.CoqList(q.Items, coqTask), coqBool(q.Running), coqBool(q.WorkerStopped))
+		return fmt.Sprintf("mkQO %d %s %s %s %s", q.Name, core.CoqList(q.Items, coqTask), coqBool(q.Running), coqBool(q.WorkerStopped), coqBool(q.Delayed))
 	})
 	var execs []ExecObs
 	for _, e := range s.Execs {
@@ -312,6 +375,10 @@ func coqAction(a Action) string {
 		return fmt.Sprintf("Finish %d %s", a.Q, coqBool(a.Ok))
 	case "Stop":
 		return "Stop"
+	case "FinishWait":
+		return fmt.Sprintf("FinishWait %d", a.Q)
+	case "Elapse":
+		return fmt.Sprintf("Elapse %d", a.Q)
 	}
 	return "Stop"
 }
@@ -375,6 +442,17 @@ func Render(sc Scenario, tr *Trace, crash string) core.Case {
 		c.Tags = append(c.Tags, "act:"+a.Kind)
 		if a.Kind == "Finish" && !a.Ok {
 			c.Tags = append(c.Tags, "finish:fail")
+		}
+		if a.Kind == "FinishWait" && a.Short {
+			c.Tags = append(c.Tags, "backoff:short")
+		}
+		if a.Kind == "Stop" && i > 0 && i <= len(t.Steps) {
+			for _, q := range t.Steps[i-1].Queues {
+				if q.Delayed {
+					c.Tags = append(c.Tags, "stop-during-backoff")
+					break
+				}
+			}
 		}
 		if i < len(t.Steps) {
 			execs += len(t.Steps[i].Started)
